@@ -660,6 +660,7 @@ type vSerSys struct {
 }
 
 func (s *vSerSys) Reset() {
+	vResetGlobals()
 	vFixLevels()
 	if s.untrained {
 		s.src = s.k.fresh()
